@@ -217,7 +217,7 @@ CHECKS = {
     ),
     "C14": dict(
         level="exploration",
-        required_probes=['multi_pass_rewind', 'frame_boundary_on_time_mark', 'multi_frame_run_checked', 'cutoff_reached', 'lm_vs_projdata_compared', 'several_cache_files', 'cache_files_reused', 'cache_write_error_reported_by_set_up', 'source_ended_inside_run', 'reuse_cutoff_request', 'reuse_frame_request', 'lm_second_set_up_checked'],
+        required_probes=['multi_pass_rewind', 'frame_boundary_on_time_mark', 'multi_frame_run_checked', 'cutoff_reached', 'lm_vs_projdata_compared', 'several_cache_files', 'cache_files_reused', 'cache_write_error_reported_by_set_up', 'source_ended_inside_run', 'reuse_cutoff_request', 'reuse_frame_request', 'lm_second_set_up_checked', 'file_multi_pass', 'file_ends_inside_a_record', 'file_histogram_nonempty', 'other_tag_words_in_file'],
         parts=[dict(harness="chk_C14", variant="seq", src="checks/chk_C14.cpp",
                     runs=dict(quick=6000, thorough=300000), wall_cap=dict(quick=110, thorough=2400)),
                dict(harness="chk_C14", variant="omp", src="checks/chk_C14.cpp",
@@ -229,19 +229,27 @@ CHECKS = {
               "exactly on time marks, with all segments in memory and with drawn num_segments_in_memory / num_TOF_bins_in_memory, the whole "
               "interval, one multi-frame run writing files); eof (the source ends after record k); cutoff (num_events_to_store); reuse (one "
               "converter object serves 2..4 requests in a row: frames, other batch sizes, prompt/delayed settings, cut-offs); "
+              "file_safir / file_ecat8 (the script encoded as a SAFIR coincidence file of a block scanner, resp. as a PETLINK 32-bit list of "
+              "the Siemens mMR with its Interfile list-mode header and foreign tag words in between, and read by the real "
+              "CListModeDataSAFIR / CListModeDataECAT8_32bit through InputStreamWithRecords and libstdc++'s filebuf: file cut at a drawn "
+              "byte (inside a record, inside the header), short reads and EINTR at drawn read calls, several passes with rewinds); "
               "lm_gradient (list-mode objective function with a small event cache -> several cache files, optional second object re-using "
               "them, vs the projection-data objective function of the histogram: sensitivity, gradient, gradient+sensitivity, Hessian x "
               "vector); lm_cache_write_error (ENOSPC / EIO at a drawn write call while the event cache is written: reported by set_up or by "
               "a later request, or results right all the same).  omp part: list-mode sensitivity / gradient / value / Hessian product with 2..16 simulated threads vs one thread.  "
               "Non-trivial: every run (omp: >= 1 context switch); distinct = event-log hash / schedule hash."),
         components=dict(real=REAL_COMMON + ["LmToProjData (frame loop, segment/TOF batches, rewind through saved positions, cut-off), "
-                                            "CListEventScannerWithDiscreteDetectors::get_bin, ProjDataInfo bin mapping, ProjDataInMemory / Interfile output, "
+                                            "CListEventScannerWithDiscreteDetectors::get_bin, CListModeDataSAFIR / CListRecordSAFIR (both record layouts), "
+                                            "CListModeDataECAT8_32bit / CListRecordECAT8_32bit / InterfileListmodeHeaderSiemens, InputStreamWithRecords, "
+                                            "ProjDataInfo bin mapping, ProjDataInMemory / Interfile output, "
                                             "PoissonLogLikelihoodWithLinearModelForMeanAndListModeDataWithProjMatrixByBin incl. its cache files, LM_distributable_computation"],
                         stub=["the list-mode source: SimListModeData (scripted records behind the ListModeData interface; end of data at a chosen record)",
                               "independent per-event count (oracle)"] + STUB_IO + ["omp part: libgomp and libtsan replaced by simgomp/simtsan"]),
         assumptions=["an event belongs to the frame that contains the time of the last time mark before it (0 before the first one), as the "
                      "class documentation states for chronological list-mode data", "the bin of an event is taken from the template's own "
-                     "get_bin_for_det_pos_pair (C01 is not claimed)", "list-mode likelihood: prompts only, same matrix / additive term / "
+                     "get_bin_for_det_pos_pair (C01 is not claimed); SAFIR crystal indices are translated with the scanner's own detector map",
+                     "a list-mode FILE that ends inside a record holds the complete records before it; a read error (EIO) on a list-mode "
+                     "file is not injected: STIR ends the histogram there with a warning, and the property does not say what should happen", "list-mode likelihood: prompts only, same matrix / additive term / "
                      "normalisation for both objective functions; non-TOF normalisation data", "a torn or truncated cache FILE is not part of "
                      "the check (the format has no length information; the property does not speak about it)"],
         distinct_by_hash=True,
